@@ -28,11 +28,32 @@ type EI interface {
 	IM() int
 	im() int
 }
+
+// Outer and OuterP embed a type with an unexported name: its exported members are promoted and can
+// be selected (read, assigned, called) from any package, only the embedded field's own name cannot.
+type inner struct {
+	X    int
+	Deep string
+	low  int
+}
+
+func (inner) InM() int   { return 0 }
+func (*inner) InPM() int { return 0 }
+
+type Outer struct {
+	inner
+	O int
+}
+
+type OuterP struct {
+	*inner
+	OP int
+}
 `
 
 const ExtPackagePath = "example.com/verif/ext"
 
-var selNames = []string{"A", "B", "x", "y", "M", "N", "Pub", "priv", "PubM", "privM", "PtrM", "IM", "im"}
+var selNames = []string{"A", "B", "x", "y", "M", "N", "Pub", "priv", "PubM", "privM", "PtrM", "IM", "im", "X", "Deep", "low", "InM", "InPM", "O", "OP", "inner"}
 
 type selMember struct {
 	name     string
@@ -122,7 +143,7 @@ func SelectorProgram(t *rapid.T) *SelCase {
 				if st.iface {
 					e = selEmbed{typ: "ext.EI"}
 				} else {
-					e = selEmbed{typ: "ext.E", ptr: rapid.Bool().Draw(t, "embedptr")}
+					e = selEmbed{typ: []string{"ext.E", "ext.E", "ext.Outer", "ext.OuterP"}[rapid.IntRange(0, 3).Draw(t, "extwhat")], ptr: rapid.Bool().Draw(t, "embedptr")}
 				}
 			default:
 				if st.iface {
@@ -190,7 +211,11 @@ func SelectorProgram(t *rapid.T) *SelCase {
 	extMembers := map[string][]selMember{
 		"ext.E":  {{name: "Pub"}, {name: "priv"}, {name: "A"}, {name: "PubM", method: true}, {name: "privM", method: true}, {name: "PtrM", method: true, ptr: true}},
 		"ext.EI": {{name: "IM", method: true}, {name: "im", method: true}},
+		"ext.Outer":  {{name: "O"}, {name: "inner"}},
+		"ext.OuterP": {{name: "OP"}, {name: "inner"}},
 	}
+	// members promoted through the unexported embedded type of ext.Outer / ext.OuterP (one level deeper)
+	extInner := []selMember{{name: "X"}, {name: "Deep"}, {name: "low"}, {name: "InM", method: true}, {name: "InPM", method: true, ptr: true}}
 	walk = func(st *selType, depth int, viaPtr bool, seen map[string]bool) {
 		for _, m := range st.members {
 			occ[m.name] = append(occ[m.name], SelOcc{Depth: depth, Method: m.method, ViaPtr: viaPtr})
@@ -201,6 +226,11 @@ func SelectorProgram(t *rapid.T) *SelCase {
 			if ms, ok := extMembers[e.typ]; ok {
 				for _, m := range ms {
 					occ[m.name] = append(occ[m.name], SelOcc{Depth: depth + 1, Method: m.method, ViaPtr: viaPtr || e.ptr, Ext: true})
+				}
+				if e.typ == "ext.Outer" || e.typ == "ext.OuterP" {
+					for _, m := range extInner {
+						occ[m.name] = append(occ[m.name], SelOcc{Depth: depth + 2, Method: m.method, ViaPtr: viaPtr || e.ptr || e.typ == "ext.OuterP", Ext: true})
+					}
 				}
 				continue
 			}
